@@ -65,6 +65,8 @@ class PassAnalysis:
         # the function that contains the item loop: the pass itself, or the higher-order skeleton it delegates to
         self.loop_fn = getattr(self.paths[0], 'loop_fn', self.fn) if self.paths else self.fn
         self.result = returned_list(self.loop_fn)
+        if self.result is None:
+            raise AnalysisError('{}: the list of items the pass returns is not a local name the analysis can follow'.format(fname))
         self.item = ('item', self.loop.target.id) if isinstance(self.loop.target, ast.Name) else None
         self.pos_var = self.find_position_var()
         self.mn_classes = mnemonic_classes(facts)
@@ -365,6 +367,8 @@ def parse_classes(facts):
     for key, test, outcomes in arms:
         for o in outcomes:
             if o.kind == 'return' and o.cls:
+                if o.cls not in facts.classes:
+                    raise AnalysisError('parse_item: an item is built through {}, which is not a class: which items enter the pipeline is not understood'.format(o.cls))
                 out.add(o.cls)
     return out
 
